@@ -47,6 +47,8 @@ type c16Line struct {
 		MaxDepth    int              `json:"max_depth"`
 		Counts      map[string]int64 `json:"violation_counts"`
 		Exhausted   bool             `json:"frontier_exhausted"`
+		Capped      bool             `json:"capped"`
+		Completed   int              `json:"completed_depth"`
 	} `json:"stats"`
 }
 
@@ -90,6 +92,10 @@ func c16RunDriver(w *lib.Worker, env []string) {
 			w.AddTraces(s.Executions)
 			w.Eval(s.Executions)
 			w.Depth(s.MaxDepth)
+			if s.Capped {
+				w.Cap(fmt.Sprintf("crolt shard %d: time budget reached at depth %d; depth %d was completed", w.Shard, s.MaxDepth, s.Completed))
+				w.SetExhaustive(false)
+			}
 			for sig, n := range s.Counts {
 				w.Count("crolt:"+sig, n)
 			}
@@ -125,7 +131,13 @@ func init() {
 			if w.Tier == "thorough" {
 				depth = 8
 			}
-			c16RunDriver(w, []string{fmt.Sprintf("VERIF_CROLT_DEPTH=%d", depth), fmt.Sprintf("VERIF_CROLT_SHARD=%d/%d", w.Shard, w.NShards)})
+			budget := 0 // 0 = none
+			if !w.Deadline.IsZero() {
+				if budget = int(time.Until(w.Deadline).Seconds()) - 20; budget < 30 {
+					budget = 30
+				}
+			}
+			c16RunDriver(w, []string{fmt.Sprintf("VERIF_CROLT_DEPTH=%d", depth), fmt.Sprintf("VERIF_CROLT_SHARD=%d/%d", w.Shard, w.NShards), fmt.Sprintf("VERIF_CROLT_BUDGET_S=%d", budget)})
 		},
 		ReplayFn: func(w *lib.Worker, raw json.RawMessage) {
 			var rp struct {
